@@ -324,6 +324,7 @@ pub fn run_c07(out: &mut Out, tier: &str, seed: u64) {
     crate::objapi::hashes(out, &mut rng);
     crate::objapi::mac_lengths(out, &mut rng);
     crate::objapi::long_inputs(out, &mut rng, false);
+    crate::consts::check(out, &["CRYPTO_GENERICHASH", "CRYPTO_AUTH", "CRYPTO_ONETIMEAUTH", "CRYPTO_SHORTHASH", "CRYPTO_HASH", "CRYPTO_CORE"]);
 }
 
 /// all 2-way splits of every length 0..=l2 and all 3-way splits of every length 0..=l3
